@@ -1,6 +1,7 @@
 package main
 
 import (
+	"crypto/tls"
 	"fmt"
 	"net"
 	"strings"
@@ -17,7 +18,7 @@ func init() {
 	register(&Check{
 		ID: "C12", Level: "exploration", Primary: "orders", EvalCount: "fences_checked", RaceIsViolation: true,
 		Rule: "one evaluation = a fresh server, a PRNG-chosen order of Stop relative to Run (Stop before Run; Stop 0-300us after Run was started; Stop after Ready) and, when serving, a PRNG-chosen connection state " +
-			"(connect storm with accepts in flight, handlers parked and released by a timer only after Stop was called, slow OnClose callback held 20-120ms by the harness, clients tearing down, idle connections), " +
+			"(connect storm with accepts in flight, handlers parked and released by a timer only after Stop was called - 5..45ms later, now and then 1.2..2.6s later -, ldaps sessions ended with close_notify / bare FIN / reset just before Stop, slow OnClose callback held 20-120ms by the harness, clients tearing down, idle connections), " +
 			"optionally a concurrent or later second Stop. At the fence (the instant both Stop and Run have returned) the monitor requires: no handler in flight, no OnClose in progress, one completed OnClose for every " +
 			"connection ID a handler ever saw, every served client connection closed, dial refused, the address bindable again; and over a 300ms tail no event stamped after the fence. Runs under the race detector. " +
 			"distinct_nontrivial = distinct (order, state, second-Stop, observed Ready-at-Stop) combinations",
@@ -25,11 +26,18 @@ func init() {
 		Phases: func(tier string, seed int64) []Phase {
 			return []Phase{{Name: "fences", Race: true, Run: c12Run}}
 		},
-		MinObserved: []string{"fences_checked", "order/stop-before-run", "order/race-startup", "order/after-ready", "runs_with_handlers_parked_at_stop", "runs_with_onclose_slow", "runs_with_connect_storm"},
+		MinObserved: []string{"fences_checked", "order/stop-before-run", "order/race-startup", "order/after-ready", "runs_with_handlers_parked_at_stop", "runs_with_onclose_slow", "runs_with_connect_storm", "runs_with_tls_sessions_torn_down", "tls_sessions_served_before_stop", "runs_with_handlers_held_more_than_a_second_after_stop"},
 	})
 }
 
 var c12Tails []func()
+
+var c12ParkedRuns int
+
+var (
+	c12PKIOnce sync.Once
+	c12PKI     *PKI
+)
 
 func c12Run(c *Ctx) {
 	n := c.N(500, 8000)
@@ -51,7 +59,7 @@ func c12One(c *Ctx, r *Rand, idx int) {
 	order := pick(r, []string{"stop-before-run", "race-startup", "race-startup", "after-ready", "after-ready", "after-ready", "after-ready"})
 	state := "none"
 	if order == "after-ready" {
-		state = pick(r, []string{"storm", "parked", "slow-onclose", "teardown", "idle", "parked+slow-onclose", "storm+parked"})
+		state = pick(r, []string{"storm", "parked", "slow-onclose", "teardown", "idle", "parked+slow-onclose", "storm+parked", "tls-teardown"})
 	}
 	second := pick(r, []string{"no", "concurrent", "later"})
 	var inflight, onclosing atomic.Int64
@@ -75,6 +83,10 @@ func c12One(c *Ctx, r *Rand, idx int) {
 		lastEvent.Store(nextSeq())
 		onclosing.Add(-1)
 	}}
+	if state == "tls-teardown" {
+		c12PKIOnce.Do(func() { c12PKI = newPKI() })
+		cfg.TLS = c12PKI.ServerOnly
+	}
 	srv, err := newSrv(cfg)
 	if err != nil {
 		c.Inconclusive(err.Error())
@@ -100,7 +112,11 @@ func c12One(c *Ctx, r *Rand, idx int) {
 	det := map[string]any{"order": order, "state": state, "second_stop": second, "index": idx}
 	runRet := make(chan error, 1)
 	startRun := func() {
-		go func() { runRet <- srv.S.Run(addr) }()
+		var opts []gldap.Option
+		if cfg.TLS != nil {
+			opts = append(opts, gldap.WithTLSConfig(cfg.TLS))
+		}
+		go func() { runRet <- srv.S.Run(addr, opts...) }()
 	}
 	stopRet := make(chan error, 3)
 	callStop := func() { go func() { stopRet <- srv.S.Stop() }() }
@@ -163,6 +179,42 @@ func c12One(c *Ctx, r *Rand, idx int) {
 			for dl := time.Now().Add(5 * time.Second); parkedNow.Load() == 0 && time.Now().Before(dl); {
 				time.Sleep(100 * time.Microsecond)
 			}
+		case "tls-teardown":
+			// ldaps sessions that end in every way just before (or while) Stop runs: with close_notify, with a bare
+			// FIN, with a reset (closing such a transport fails on the server side: nothing is left to send the
+			// close_notify to), or not at all
+			var ends []func()
+			for i := 0; i < 2+r.Intn(5); i++ {
+				cn := dial()
+				if cn == nil {
+					continue
+				}
+				tc := tls.Client(cn, c12PKI.ClientPlain)
+				cn.SetDeadline(time.Now().Add(patience))
+				if tc.Handshake() != nil {
+					continue
+				}
+				cn.SetDeadline(time.Time{})
+				tc.Write(search(1, "x"))
+				if _, err := wrapClient(tc).ReadMsg(patience); err == nil {
+					c.Count("tls_sessions_served_before_stop", 1)
+				}
+				switch r.Intn(4) {
+				case 0:
+					ends = append(ends, func() { tc.Close() })
+				case 1:
+					ends = append(ends, func() { cn.Close() })
+				case 2:
+					ends = append(ends, func() { hardReset(tc) })
+				}
+			}
+			for _, f := range ends {
+				f()
+			}
+			if r.Bool() {
+				time.Sleep(time.Duration(r.Intn(3000)) * time.Microsecond)
+			}
+			c.Count("runs_with_tls_sessions_torn_down", 1)
 		case "teardown":
 			for i := 0; i < 2+r.Intn(6); i++ {
 				if cn := dial(); cn != nil {
@@ -210,8 +262,18 @@ func c12One(c *Ctx, r *Rand, idx int) {
 		callStop()
 		if parked {
 			// the gate opens only after Stop has been *called*
+			hold := time.Duration(5+r.Intn(40)) * time.Millisecond
+			c12ParkedRuns++
+			switch x := r.Intn(100); {
+			case c12ParkedRuns%20 == 3: // well beyond any plausible internal grace period
+				hold = time.Duration(1200+r.Intn(1400)) * time.Millisecond
+				c.Count("runs_with_handlers_held_more_than_a_second_after_stop", 1)
+			case x < 5 && !c.Quick():
+				hold = time.Duration(5000+r.Intn(3000)) * time.Millisecond
+				c.Count("runs_with_handlers_held_more_than_a_second_after_stop", 1)
+			}
 			go func() {
-				time.Sleep(time.Duration(5+r.Intn(40)) * time.Millisecond)
+				time.Sleep(hold)
 				close(release)
 			}()
 		}
